@@ -76,6 +76,34 @@ var slashNames = []hostile{
 
 var linkTargets = []string{"../outside/dir", "%ABS%/dir", ".git", ".git/hooks", "..", "../outside"}
 
+// deepVariant: a symlink planted as a NON-deepest leading component of tracked paths; the deeper
+// intermediate directories exist inside the link target, so that a real directory is reached THROUGH the link.
+type deepVariant struct {
+	name, link, target string   // link path in the worktree, symlink target (%ABS% / %GIT% expanded)
+	through            []string // tracked paths of commit 1 below the link (their counterparts exist in the link target)
+	adds               []string // paths commit 2 adds below the link
+}
+
+var deepVariants = []deepVariant{
+	{"dotgit-rel", "d", ".git", []string{"d/refs/heads/victim", "d/hooks/victim-hook", "d/info/victim", "d/objects/info/victim", "d/logs/refs/victim"}, []string{"d/hooks/pwn-hook", "d/refs/heads/pwn"}},
+	{"dotgit-abs", "d", "%GIT%", []string{"d/refs/heads/victim", "d/hooks/victim-hook", "d/info/victim"}, []string{"d/hooks/pwn-hook", "d/refs/heads/pwn"}},
+	{"dotgit-refs-rel", "d", ".git/refs", []string{"d/heads/victim", "d/victimdir/v"}, []string{"d/heads/pwn"}},
+	{"modules-rel", "d", ".git/modules/sub", []string{"d/refs/heads/victim", "d/hooks/victim-hook"}, []string{"d/hooks/pwn-hook"}},
+	{"outside-rel", "d", "../outside", []string{"d/dir/inner/y", "d/dir/x"}, []string{"d/dir/inner/pwn"}},
+	{"outside-abs", "d", "%ABS%", []string{"d/dir/inner/y", "d/dir/x"}, []string{"d/dir/inner/pwn"}},
+	{"outside-dir-rel", "d", "../outside/dir", []string{"d/inner/y"}, []string{"d/inner/pwn"}},
+	{"nested-dotgit-rel", "a/l", "../.git", []string{"a/l/refs/heads/victim", "a/l/hooks/victim-hook"}, []string{"a/l/hooks/pwn-hook"}},
+}
+
+func deepOf(name string) *deepVariant {
+	for i := range deepVariants {
+		if deepVariants[i].name == name {
+			return &deepVariants[i]
+		}
+	}
+	return nil
+}
+
 func plan(c *vf.Ctx) []caseT {
 	var cases []caseT
 	n := 0
@@ -119,6 +147,22 @@ func plan(c *vf.Ctx) []caseT {
 			for _, op := range treeOps {
 				cases = append(cases, caseT{Op: op, Struct: "planted", Plant: pl, NTFS: pick(protects), HFS: pick(protects)})
 			}
+		}
+		// 5b. symlink planted as 2nd / 3rd-from-last component, intermediates existing in the link target
+		for _, dv := range deepVariants {
+			for _, op := range []string{"checkout-force", "reset-hard", "checkout-hash", "cherry-pick", "reset-keep", "checkout", "clean", "add-all", "status", "commit-all"} {
+				cases = append(cases, caseT{Op: op, Struct: "deep-planted", Plant: dv.name, NTFS: pick(protects), HFS: pick(protects)})
+			}
+			for _, op := range []string{"add", "remove", "restore", "move-from"} {
+				for _, a := range dv.through {
+					cases = append(cases, caseT{Op: op, Struct: "deep-planted", Plant: dv.name, Arg: a, NTFS: pick(protects), HFS: pick(protects)})
+				}
+			}
+			for _, a := range dv.adds {
+				cases = append(cases, caseT{Op: "move-to", Struct: "deep-planted", Plant: dv.name, Arg: a, NTFS: pick(protects), HFS: pick(protects)})
+			}
+			cases = append(cases, caseT{Op: "remove-glob", Struct: "deep-planted", Plant: dv.name, Arg: dv.link + "/*/*/*", NTFS: pick(protects), HFS: pick(protects)})
+			cases = append(cases, caseT{Op: "add-glob", Struct: "deep-planted", Plant: dv.name, Arg: dv.link + "/*/*", NTFS: pick(protects), HFS: pick(protects)})
 		}
 		// 6. path-argument operations: hostile arguments and arguments that run through planted symlinks
 		args := []string{"../outside/secret", "../../top", "%ABS%/secret", ".git/config", ".git/hooks/pre-commit", "d/x", "f", "u/inner/y", "u/x", "a/../../outside/secret", "a/../.git/config", ".GIT/config", "d", "u", "ul",
@@ -164,7 +208,7 @@ func nameClass(k caseT) string {
 	switch k.Struct {
 	case "benign":
 		return "benign"
-	case "planted", "path-arg":
+	case "planted", "path-arg", "deep-planted":
 		return "planted:" + k.Plant
 	case "gitmodules-symlink":
 		return "gitmodules"
@@ -325,6 +369,28 @@ func build(c *vf.Ctx, tmpl string, k caseT) (*built, error) {
 			}
 		}
 	}
+	if dv := deepOf(k.Plant); k.Struct == "deep-planted" && dv != nil {
+		for _, pth := range dv.through {
+			t1.put(strings.Split(pth, "/"), file("tracked "+pth+"\n"), true)
+		}
+		t2 = t1.clone()
+		t2.put([]string{"f"}, file("f v2 longer\n"), true)
+		for i, pth := range dv.through { // commit 2 deletes the first, modifies the others
+			comps := strings.Split(pth, "/")
+			if i == 0 {
+				cur := t2
+				for _, cmp := range comps[:len(comps)-1] {
+					cur = cur.child(cmp)
+				}
+				cur.remove(comps[len(comps)-1])
+			} else {
+				t2.put(comps, file("tracked "+pth+" v2 longer\n"), true)
+			}
+		}
+		for _, pth := range dv.adds {
+			t2.put(strings.Split(pth, "/"), exec("#!/bin/sh\necho pwned\n"), true)
+		}
+	}
 	b.c1 = st.commit(st.store(t1), nil, "c1")
 	b.c2 = st.commit(st.store(t2), []string{b.c1}, "c2")
 	mustWrite(filepath.Join(gitdir, "refs", "heads", "master"), b.c1+"\n")
@@ -333,6 +399,17 @@ func build(c *vf.Ctx, tmpl string, k caseT) (*built, error) {
 	mustWrite(filepath.Join(gitdir, "hooks", "pre-commit"), "#!/bin/sh\nexit 0\n")
 	mustWrite(filepath.Join(gitdir, "hooks", "x"), "#!/bin/sh\nexit 0\n") // reachable as d/x through a planted d -> .git/hooks
 	mustWrite(filepath.Join(gitdir, "x"), "victim\n")                     // reachable as u/x through a planted u -> .git
+	// victims below existing intermediate directories of .git (and of a submodule git dir), reachable through a
+	// symlink planted higher up: d -> .git makes d/refs/heads/victim a path whose parents are real directories
+	mustWrite(filepath.Join(gitdir, "refs", "heads", "victim"), b.c1+"\n")
+	mustWrite(filepath.Join(gitdir, "refs", "victimdir", "v"), b.c1+"\n")
+	mustWrite(filepath.Join(gitdir, "hooks", "victim-hook"), "#!/bin/sh\nexit 0\n")
+	mustWrite(filepath.Join(gitdir, "info", "victim"), "victim\n")
+	mustWrite(filepath.Join(gitdir, "objects", "info", "victim"), "victim\n")
+	mustWrite(filepath.Join(gitdir, "logs", "refs", "victim"), "victim\n")
+	mustWrite(filepath.Join(gitdir, "modules", "sub", "HEAD"), "ref: refs/heads/master\n")
+	mustWrite(filepath.Join(gitdir, "modules", "sub", "refs", "heads", "victim"), b.c1+"\n")
+	mustWrite(filepath.Join(gitdir, "modules", "sub", "hooks", "victim-hook"), "#!/bin/sh\nexit 0\n")
 	cfg := "[core]\n\trepositoryformatversion = 0\n\tfilemode = true\n\tbare = false\n"
 	if k.NTFS != "" {
 		cfg += "\tprotectNTFS = " + k.NTFS + "\n"
@@ -374,6 +451,11 @@ func plant(b *built, how string) {
 		p := filepath.Join(b.wt, name)
 		os.RemoveAll(p)
 		os.Symlink(target, p)
+	}
+	if dv := deepOf(how); dv != nil {
+		t := strings.ReplaceAll(strings.ReplaceAll(dv.target, "%ABS%", out), "%GIT%", filepath.Join(b.wt, ".git"))
+		ln(t, dv.link)
+		return
 	}
 	switch how {
 	case "dir-rel": // untracked paths that c2 adds
